@@ -83,6 +83,9 @@ def run_mc(module, cfg, workers=None, timeout=1800, coverage=False, extra=None, 
     elif re.search(r'Error: Action property (\w+) is violated', out):
         res['invariant'] = re.search(r'Error: Action property (\w+) is violated', out).group(1)
         res['error'] = 'action property ' + res['invariant']
+    elif re.search(r'Error: Temporal property (\w+) was violated', out):
+        res['error'] = 'temporal property ' + re.search(r'Error: Temporal property (\w+) was violated', out).group(1) + ' violated'
+        res['invariant'] = 'temporal'
     elif 'Temporal properties were violated' in out:
         res['error'] = 'temporal property violated'
         res['invariant'] = 'temporal'
